@@ -5,7 +5,7 @@
 //! thread stack and RLIMIT_AS. The parent classifies: typed result (ok), panic (caught in the
 //! child), crash (signal: stack overflow / abort), peak allocation out of proportion, hang.
 
-use crate::c12::{all_targets, apply_bmut, bmut, BMut};
+use crate::c12::{apply_bmut, bmut, BMut};
 use crate::targets::{Dec, Target};
 use proptest::prelude::*;
 use proptest::strategy::ValueTree;
@@ -15,6 +15,14 @@ use serde_json::{json, Value};
 use std::io::{Read, Write};
 use std::process::{Command, Stdio};
 use std::time::{Duration, Instant};
+
+thread_local! {
+    static ENTRY_POINTS: std::cell::RefCell<Option<std::rc::Rc<Vec<Target>>>> = const { std::cell::RefCell::new(None) };
+}
+/// Codecs, readers and the host boundary (the child indexes the same list).
+fn entry_points() -> std::rc::Rc<Vec<Target>> {
+    ENTRY_POINTS.with(|t| t.borrow_mut().get_or_insert_with(|| std::rc::Rc::new(crate::targets::targets())).clone())
+}
 use vkit::{Check, Ctx, Fail, Recorder, Sub, Violation};
 
 pub const ALLOC_BASE: usize = 1 << 20;
@@ -478,7 +486,7 @@ impl Sub for C13Sub {
     }
     fn run(&self, ctx: &Ctx, rec: &mut Recorder) {
         let t0 = Instant::now();
-        let t = all_targets();
+        let t = entry_points();
         let items = self.inputs(ctx, &t);
         let plain: Vec<(usize, Vec<u8>)> = items.iter().map(|(a, b, _)| (*a, b.clone())).collect();
         let outcomes = run_all(ctx, &plain);
@@ -566,7 +574,7 @@ impl Sub for C13Sub {
     }
     fn replay(&self, ctx: &Ctx, case: &Value) -> Check {
         let inp: Input = serde_json::from_value(case.clone()).map_err(|e| Fail::new("replay/decode", e.to_string()))?;
-        let t = all_targets();
+        let t = entry_points();
         let ti = t.iter().position(|x| x.name == inp.target).ok_or_else(|| Fail::new("replay/decode", "unknown target"))?;
         let bytes = hex::decode(&inp.hex).map_err(|e| Fail::new("replay/decode", e.to_string()))?;
         let o = run_all(ctx, &[(ti, bytes.clone())]);
